@@ -411,7 +411,7 @@ class _TermLoop(GhostIterable):
     def step(self, interp, env, broke):
         h, c = self.h, self.coef
         h.check("the loop does not stop early", not broke)
-        h.check("gate list not rebound (prefix kept)", env.lookup("exp_pauli_word_gates") is self.acc)
+        h.shape("gate list not rebound (prefix kept)", env.lookup("exp_pauli_word_gates") is self.acc)
         new = self.acc.appended
         ph = env.lookup("phase")
         if self.word:
@@ -495,11 +495,12 @@ def p1(h, st):
     class _Op:
         terms = _Terms()
     out = h.call(AU, "get_exponentiated_qubit_operator_circuit", _Op(), t, st["variational"], st["order"], st["control"], st["return_phase"])
-    h.check("the decomposition is asked once, for the operator's terms in order, with the Trotter order and the time", len(dec_calls) == 1 and isinstance(dec_calls[0][0][0], GSeq)
-            and dec_calls[0][0][0].describe() == ("shallow", ("atom", "qubit_op.terms.items()")) and dec_calls[0][0][1] == st["order"] and dec_calls[0][0][2] is t)
-    h.check("the loop body was entered once for the generic term", proto.iterations == 1)
+    h.shape("the decomposition is asked once, for the operator's terms", len(dec_calls) == 1 and isinstance(dec_calls[0][0][0], GSeq) and len(dec_calls[0][0]) >= 3)
+    h.check("... in the operator's order, with the Trotter order and the time", dec_calls[0][0][0].describe() in (("shallow", ("atom", "qubit_op.terms.items()")), ("atom", "qubit_op.terms.items()"))
+            and dec_calls[0][0][1] == st["order"] and dec_calls[0][0][2] is t)
+    h.shape("the loop body was entered once for the generic term", proto.iterations == 1)
     from tangelo.linq import Circuit
-    h.check("one circuit constructed from the accumulated gates", len(init_calls) == 1 and init_calls[0][0][1] is proto.acc)
+    h.shape("one circuit constructed from the accumulated gates", len(init_calls) == 1 and len(init_calls[0][0]) > 1 and init_calls[0][0][1] is proto.acc)
     if st["return_phase"]:
         h.check("(circuit, phase) returned", isinstance(out, tuple) and len(out) == 2 and isinstance(out[0], Circuit))
     else:
